@@ -426,8 +426,11 @@ def rule_R(toks, au, opts=None):
         # format!(…) -> vx_fmt()
         if is_id(t, "format") and texts(toks, i + 1, 1) == ["!"] and toks[i + 2].text in OPEN:
             k = match_close(toks, i + 2)
-            au.note("R", "format!(…) -> vx_fmt()")
-            out += [Tok("id", "vx_fmt", t.ws), Tok("p", "(", ""), Tok("p", ")", "")]
+            lit = toks[i + 3].text if toks[i + 3].kind == "str" else ""
+            plain = re.sub(r"\{[^{}]*\}", "", lit.strip('"').replace("{{", "x").replace("}}", "x"))
+            name_ = "vx_fmt_nonempty" if plain else "vx_fmt"
+            au.note("R", f"format!(…) -> {name_}()")
+            out += [Tok("id", name_, t.ws), Tok("p", "(", ""), Tok("p", ")", "")]
             i = k + 1
             continue
         # .to_be_bytes() -> .vx_to_be_bytes()
@@ -972,6 +975,18 @@ def rule_H(toks, au, h, lockflags=False, fname=None):
     lcount = 0
     while i < len(toks):
         t = toks[i]
+        # free / path calls of effectful shims:  name(..)  /  Path::name(..)
+        if t.kind == "id" and t.text in h.fx and i + 1 < len(toks) and is_p(toks[i + 1], "(") and not (i > 0 and (is_p(toks[i - 1], ".") or is_id(toks[i - 1], "fn"))):
+            k = match_close(toks, i + 1)
+            empty = (k == i + 2)
+            ins = toks_of(("" if empty else ", ") + h.fxarg)
+            for q, x in enumerate(ins):
+                if q > 0 and x.ws == "" and is_p(ins[q - 1], ","):
+                    x.ws = " "
+            toks[k:k] = ins
+            au.note("H", f"{t.text}(…, {h.fxarg})")
+            i = k + len(ins)
+            continue
         if is_p(t, ".") and toks[i + 1].kind == "id" and is_p(toks[i + 2], "("):
             name = toks[i + 1].text
             recv_self = i > 0 and is_id(toks[i - 1], "self") and not (i > 1 and is_p(toks[i - 2], "."))
